@@ -209,6 +209,49 @@ C_MUTANTS = [
     ('C20', ['list loop'], 'src/c/_cffi_backend.c',
      '            while (cf != NULL && (cf->cf_flags & BF_IGNORE_IN_CTOR))\n                cf = cf->cf_next;',
      '            while (cf != NULL && i > 0 && (cf->cf_flags & BF_IGNORE_IN_CTOR))\n                cf = cf->cf_next;'),
+    ('C21', ['cdatagcp_finalize'], 'src/c/_cffi_backend.c',
+     '    cd->destructor = NULL;\n    cd->origobj = NULL;\n    gcp_finalize(destructor, origobj);',
+     '    gcp_finalize(destructor, origobj);\n    cd->destructor = NULL;\n    cd->origobj = NULL;'),
+    ('C21', ['cdatagcp_finalize keeps armed'], 'src/c/_cffi_backend.c',
+     '    cd->destructor = NULL;\n    cd->origobj = NULL;\n    gcp_finalize(destructor, origobj);',
+     '    cd->origobj = NULL;\n    gcp_finalize(destructor, origobj);'),
+    ('C21', ['gcp_finalize loses the pending exception'], 'src/c/_cffi_backend.c',
+     '        /* Restore the saved exception */\n        PyErr_Restore(error_type, error_value, error_traceback);',
+     '        /* Restore the saved exception */\n        if (result != NULL) PyErr_Restore(error_type, error_value, error_traceback);'),
+    ('C21', ['b_gcp None calls'], 'src/c/_cffi_backend.c',
+     '\tPy_CLEAR(((CDataObject_gcp *)origobj)->destructor);\n\tPy_RETURN_NONE;',
+     '\tcdatagcp_finalize((CDataObject_gcp *)origobj);\n\tPy_RETURN_NONE;'),
+    ('C21', ['b_gcp None forgets'], 'src/c/_cffi_backend.c',
+     '\tPy_CLEAR(((CDataObject_gcp *)origobj)->destructor);\n\tPy_RETURN_NONE;',
+     '\tPy_RETURN_NONE;'),
+    ('C21', ['cdata_exit frombuf'], 'src/c/_cffi_backend.c',
+     '            view = ((CDataObject_frombuf *)cd)->bufferview;\n            PyBuffer_Release(view);\n            break;',
+     '            view = ((CDataObject_frombuf *)cd)->bufferview;\n            break;'),
+    ('C21', ['cdata_exit gc'], 'src/c/_cffi_backend.c',
+     '            /* call the destructor immediately */\n            cdatagcp_finalize((CDataObject_gcp *)cd);\n            break;',
+     '            /* call the destructor immediately */\n            break;'),
+    ('C21', ['allocate_with_allocator free'], 'src/c/_cffi_backend.c',
+     '        cd = allocate_gcp_object(cd, ct, allocator->ca_free);',
+     '        cd = allocate_gcp_object(cd, ct, allocator->ca_alloc);'),
+    ('C21', ['b_from_handle'], 'src/c/_cffi_backend.c',
+     '    x = orgcd->structobj;\n    Py_INCREF(x);\n    return x;',
+     '    x = (PyObject *)orgcd;\n    Py_INCREF(x);\n    return x;'),
+    ('C21', ['newp_handle'], 'src/c/_cffi_backend.c',
+     '    Py_INCREF(x);\n    cd->structobj = x;',
+     '    Py_INCREF(x);\n    cd->structobj = (PyObject *)ct_voidp;'),
+    ('C21', ['newp_handle address'], 'src/c/_cffi_backend.c',
+     '    cd->head.c_data = (char *)cd;\n    cd->head.c_weakreflist = NULL;\n    Py_INCREF(x);', '    cd->head.c_data = (char *)x;\n    cd->head.c_weakreflist = NULL;\n    Py_INCREF(x);'),
+    ('C21', ['direct_from_buffer leak'], 'src/c/_cffi_backend.c',
+     ' error2:\n    PyBuffer_Release(view);\n error1:', ' error2:\n error1:'),
+    ('C21', ['cdatagcp_dealloc double'], 'src/c/_cffi_backend.c',
+     '    cdata_dealloc((CDataObject *)cd);\n\n    gcp_finalize(destructor, origobj);',
+     '    cdata_dealloc((CDataObject *)cd);\n\n    gcp_finalize(destructor, origobj);\n    gcp_finalize(destructor, origobj);'),
+    ('C21', ['owned subscript'], 'src/c/_cffi_backend.c',
+     '        PyObject *res = ((CDataObject_own_structptr *)cd)->structobj;\n        Py_INCREF(res);\n        return res;',
+     '        return convert_to_object(c, cd->c_type->ct_itemdescr);'),
+    ('C21', ['a fourth writer of destructor'], 'src/c/_cffi_backend.c',
+     'static int cdatagcp_traverse(CDataObject_gcp *cd, visitproc visit, void *arg)\n{',
+     'static int cdatagcp_traverse(CDataObject_gcp *cd, visitproc visit, void *arg)\n{\n    if (arg == (void *)cd) cd->destructor = cd->origobj;'),
     ('C03', ['export table'], 'src/c/_cffi_backend.c',
      '    _cffi_to_c_i32,\n    _cffi_to_c_u32,', '    _cffi_to_c_u32,\n    _cffi_to_c_i32,'),
 ]
